@@ -623,6 +623,10 @@ func (x *fnCtx) callSiteClauses(st *State, fr *Frame, in ssa.Instruction, c *ssa
 		}
 		env := &specEnv{x: x, st: st, heap: st.heap, old: fr.oldHeap, names: names, fr: fr}
 		target := x.evalSpec(env, cl.Expr)
+		unless := False
+		if cl.Cond != nil {
+			unless = x.evalSpecBool(env, cl.Cond)
+		}
 		allowed := map[string]bool{}
 		for _, m := range strings.Fields(cl.Arg) {
 			allowed[m] = true
@@ -637,7 +641,7 @@ func (x *fnCtx) callSiteClauses(st *State, fr *Frame, in ssa.Instruction, c *ssa
 				if !types.Identical(v.T, target.T) {
 					return False
 				}
-				return And(Eq(v.L[0], target.L[0]), Eq(v.L[1], target.L[1]), Ne(v.L[0], IntLit(0)))
+				return And(Eq(v.L[0], target.L[0]), Eq(v.L[1], target.L[1]), Ne(v.L[0], IntLit(0)), Not(unless))
 			}
 			return False
 		}
@@ -660,6 +664,47 @@ func (x *fnCtx) callSiteClauses(st *State, fr *Frame, in ssa.Instruction, c *ssa
 			calleeCon = x.eng.db.Funcs[pkg+"."+key]
 		}
 		for i, a := range args {
+			// a struct passed by value carries the target in one of its interface fields: the
+			// callee must declare a role for <param>.<field>
+			if stt, isStruct := transparentStruct(a.T); isStruct && a.Tup == nil {
+				off := 0
+				for fi := 0; fi < stt.NumFields(); fi++ {
+					n := len(layout(stt.Field(fi).Type()))
+					if off+n > len(a.L) {
+						break
+					}
+					fv := &Val{T: stt.Field(fi).Type(), L: a.L[off : off+n]}
+					off += n
+					sf := same(fv)
+					if sf == False {
+						continue
+					}
+					ok := false
+					if calleeCon != nil && fnv.Fn != nil && i < len(fnv.Fn.Fn.Params) {
+						pname := fnv.Fn.Fn.Params[i].Name()
+						for _, ccl := range calleeCon.ClausesOf("only_calls") {
+							if ccl.Expr.Kind == "field" && ccl.Expr.Op == stt.Field(fi).Name() && ccl.Expr.Args[0].Kind == "ident" && ccl.Expr.Args[0].Op == pname {
+								sub := true
+								if ccl.Cond != nil && !x.calleeUnlessExcluded(st, fr, in, cl, ccl, fnv, args, sf, site, fmt.Sprintf("arg%d.%s", i, stt.Field(fi).Name())) {
+									sub = false
+								}
+								for _, m := range strings.Fields(ccl.Arg) {
+									if !allowed[m] {
+										sub = false
+									}
+								}
+								if sub {
+									ok = true
+								}
+							}
+						}
+					}
+					if !ok {
+						x.addVC(st, x.short, "only_calls", cl.Ord, fmt.Sprintf("%d.arg%d.%s", site, i, stt.Field(fi).Name()), Not(sf), fmt.Sprintf("%s passed in field %s to %s which declares no matching role", cl.Expr.String(), stt.Field(fi).Name(), name), x.eng.posStr(in.Pos()))
+					}
+				}
+				continue
+			}
 			s := same(a)
 			if s == False {
 				continue
@@ -670,6 +715,9 @@ func (x *fnCtx) callSiteClauses(st *State, fr *Frame, in ssa.Instruction, c *ssa
 				for _, ccl := range calleeCon.ClausesOf("only_calls") {
 					if ccl.Expr.Kind == "ident" && ccl.Expr.Op == pname {
 						sub := true
+						if ccl.Cond != nil && !x.calleeUnlessExcluded(st, fr, in, cl, ccl, fnv, args, s, site, fmt.Sprintf("arg%d", i)) {
+							sub = false
+						}
 						for _, m := range strings.Fields(ccl.Arg) {
 							if !allowed[m] {
 								sub = false
@@ -697,6 +745,7 @@ func (x *fnCtx) callSiteClauses(st *State, fr *Frame, in ssa.Instruction, c *ssa
 // ---------------- traces ----------------
 
 func (x *fnCtx) recordTrace(st *State, name string, c *ssa.CallCommon, fnv *Val, args []*Val, res *Val) {
+	recorded := false
 	for _, td := range x.con.Traces {
 		if len(td.Props) > 0 {
 			found := false
@@ -759,10 +808,22 @@ func (x *fnCtx) recordTrace(st *State, name string, c *ssa.CallCommon, fnv *Val,
 				ev = strings.ReplaceAll(ev, ph, s)
 			}
 		}
-		st.trace = append(st.trace, Event{Name: ev, Args: args, Res: res})
+		if !recorded {
+			// one event per call (named by the first matching declaration); conditional binds of
+			// further matching declarations are still evaluated
+			st.trace = append(st.trace, Event{Name: ev, Args: args, Res: res})
+			recorded = true
+		} else if td.When == nil {
+			return
+		}
 		if td.As != "" && res != nil && td.When != nil {
 			// conditional bind: the new value when the condition holds, the previous one otherwise
 			names := map[string]nameBind{}
+			if len(st.frames) > 0 {
+				for k, v := range st.frames[0].names {
+					names[k] = v
+				}
+			}
 			for k, v := range st.ghost {
 				if !strings.HasPrefix(k, "$") {
 					names[k] = nameBind{v: v}
@@ -771,7 +832,14 @@ func (x *fnCtx) recordTrace(st *State, name string, c *ssa.CallCommon, fnv *Val,
 			for i, a := range args {
 				names[fmt.Sprintf("$%d", i)] = nameBind{v: a}
 			}
-			env := &specEnv{x: x, st: st, heap: st.heap, old: st.heap, names: names}
+			if c != nil && c.IsInvoke() && fnv != nil {
+				names["$recv"] = nameBind{v: fnv}
+			}
+			var fr0 *Frame
+			if len(st.frames) > 0 {
+				fr0 = st.frames[0]
+			}
+			env := &specEnv{x: x, st: st, heap: st.heap, old: st.heap, names: names, fr: fr0}
 			cond, ok := x.tryEval(env, td.When)
 			if !ok {
 				x.fail("trace %s: cannot evaluate the bind condition", td.Pattern)
@@ -781,9 +849,15 @@ func (x *fnCtx) recordTrace(st *State, name string, c *ssa.CallCommon, fnv *Val,
 				old = zeroVal(res.T)
 			}
 			st.ghost[td.As] = iteVal(cond, res, old)
-			return
+			prevB := False
+			if b, ok := st.ghost["$bound."+td.As]; ok {
+				prevB = b.L[0]
+			}
+			st.ghost["$bound."+td.As] = scalar(tBool, Or(prevB, cond))
+			continue
 		}
 		if td.As != "" && res != nil {
+			st.ghost["$bound."+td.As] = scalar(tBool, True)
 			if x.bindOutsideLoops(td) {
 				// a binding made outside every loop is one value for the whole call: name it by a
 				// stable symbol so that paths starting at a loop header can refer to it
@@ -886,4 +960,23 @@ func iteVal(c *Term, a, b *Val) *Val {
 		out.L = append(out.L, Ite(c, a.L[i], b.L[i]))
 	}
 	return out
+}
+
+// calleeUnlessExcluded: the callee's role for the parameter holds unless its condition; the
+// caller must show that the condition is false whenever it passes the protected object.
+func (x *fnCtx) calleeUnlessExcluded(st *State, fr *Frame, in ssa.Instruction, cl, ccl *Clause, fnv *Val, args []*Val, same *Term, site int, what string) bool {
+	names := map[string]nameBind{}
+	for i, p := range fnv.Fn.Fn.Params {
+		if i < len(args) {
+			names[p.Name()] = nameBind{v: args[i]}
+		}
+	}
+	pkg, _ := funcKey(fnv.Fn.Fn)
+	env := &specEnv{x: x, st: st, heap: st.heap, old: st.heap, names: names, fr: fr, pkg: pkg}
+	u, ok := x.tryEval(env, ccl.Cond)
+	if !ok {
+		return false
+	}
+	x.addVC(st, x.short, "only_calls", cl.Ord, fmt.Sprintf("%d.%s.unless", site, what), Implies(same, Not(u)), fmt.Sprintf("%s is passed only when the callee's role applies (not %s)", cl.Expr.String(), ccl.Cond.String()), x.eng.posStr(in.Pos()))
+	return true
 }
